@@ -171,6 +171,7 @@ func FilterConfigs(thorough bool) []string {
 type childCfg struct {
 	filters string
 	pool    int
+	longrun string // "objqueuemax,async-invoke-timeout,n[,seed]": long-run child (longrun.go)
 }
 
 // ChildConfigs of a tier: every filter configuration on the default server, plus worker-pool
@@ -178,11 +179,19 @@ type childCfg struct {
 func ChildConfigs(thorough bool) []childCfg {
 	var out []childCfg
 	for _, f := range FilterConfigs(thorough) {
-		out = append(out, childCfg{f, 0})
+		out = append(out, childCfg{f, 0, ""})
 	}
-	out = append(out, childCfg{"c0.0.0.0-s0.0.0.0", 1}, childCfg{"c0.2.0.0-s0.2.0.0", 2})
+	out = append(out, childCfg{"c0.0.0.0-s0.0.0.0", 1, ""}, childCfg{"c0.2.0.0-s0.2.0.0", 2, ""})
 	if thorough {
-		out = append(out, childCfg{"c1.0.0.0-s1.0.0.0", 2}, childCfg{"c0.0.2.1-s0.0.1.2", 1}, childCfg{"c0.3.2.2-s0.1.3.3", 2}, childCfg{"c0.2.0.0-s0.2.0.0", 1})
+		out = append(out, childCfg{"c1.0.0.0-s1.0.0.0", 2, ""}, childCfg{"c0.0.2.1-s0.0.1.2", 1, ""}, childCfg{"c0.3.2.2-s0.1.3.3", 2, ""}, childCfg{"c0.2.0.0-s0.2.0.0", 1, ""})
+	}
+	// long-run children: small objqueuemax, varied async-invoke-timeout, N sequential calls on one proxy
+	out = append(out, childCfg{"c0.0.0.0-s0.0.0.0", 0, "40,3000,500"}, childCfg{"c0.2.0.0-s0.2.0.0", 0, "25,1200,350"})
+	if thorough {
+		// 2^16+1 calls and more (16-bit wraps); the default objqueuemax with a stream longer than it
+		// would take 10^5 one-way calls: covered by the small limits
+		out = append(out, childCfg{"c0.0.0.0-s0.0.0.0", 0, "40,3000,70000"}, childCfg{"c1.0.0.0-s1.0.0.0", 0, "7,800,3000"},
+			childCfg{"c0.0.2.1-s0.0.1.2", 0, "100,5000,4000"}, childCfg{"c0.0.0.0-s0.0.0.0", 2, "16,1500,2500"})
 	}
 	return out
 }
@@ -273,14 +282,17 @@ func Launch() {
 	}
 	cfgs := ChildConfigs(o.Thorough())
 	if rcase != nil {
-		cfgs = []childCfg{{rcase.Filters, rcase.Pool}}
+		cfgs = []childCfg{{rcase.Filters, rcase.Pool, ""}}
+		if rcase.LongRun != nil {
+			cfgs[0].longrun = rcase.LongRun.String()
+		}
 	}
 	var wg sync.WaitGroup
 	var mu sync.Mutex
-	sem := make(chan struct{}, 8)
+	sem := make(chan struct{}, 10)
 	only := os.Getenv("VERIF_E2E_ONLY") // debugging aid: "<filters>:<pool>" runs just that child (same seed as in a full run)
 	for i, fc := range cfgs {
-		if only != "" && only != fmt.Sprintf("%s:%d", fc.filters, fc.pool) {
+		if only != "" && only != fmt.Sprintf("%s:%d", fc.filters, fc.pool) && only != fc.longrun {
 			continue
 		}
 		wg.Add(1)
@@ -291,7 +303,7 @@ func Launch() {
 			outFile := filepath.Join(tmp, fmt.Sprintf("res%d.json", i))
 			args := []string{"-tier", o.Tier, "-seed", fmt.Sprint(o.Seed + int64(i)), "-model", o.Model, "-out", outFile}
 			env := append(os.Environ(), "VERIF_E2E_FILTERS="+fc.filters, fmt.Sprintf("VERIF_E2E_POOL=%d", fc.pool),
-				fmt.Sprintf("VERIF_E2E_GENSEED=%d", genSeed), "VERIF_E2E_GENTIER="+genTier)
+				fmt.Sprintf("VERIF_E2E_GENSEED=%d", genSeed), "VERIF_E2E_GENTIER="+genTier, "VERIF_E2E_LONGRUN="+fc.longrun)
 			if rcase != nil && (rcase.Scenario != nil || rcase.Large != nil) {
 				env = append(env, "VERIF_E2E_REPLAY="+o.Replay)
 			}
